@@ -82,7 +82,17 @@ func runOne(ctx context.Context, sp solverSpec, query string, id string, timeout
 	secs := time.Since(t0).Seconds()
 	os.Remove(file)
 	text := out.String()
-	first := strings.TrimSpace(strings.SplitN(text, "\n", 2)[0])
+	first := ""
+	for _, ln := range strings.Split(text, "\n") {
+		ln = strings.TrimSpace(ln)
+		if ln == "sat" || ln == "unsat" || ln == "unknown" {
+			first = ln
+			break
+		}
+		if strings.HasPrefix(ln, "(error") {
+			break
+		}
+	}
 	switch first {
 	case "sat", "unsat", "unknown":
 	default:
